@@ -4,8 +4,8 @@ set -e
 export GOFLAGS=-mod=mod GOPROXY=off GOTOOLCHAIN=local PATH=/opt/veriftools/go1.26.8/bin:$PATH
 mkdir -p /verif/work
 fail=0
-run() { # name expected-sat-labels(regex or NONE)
-  /verif/bin/gosmt -pkg ./zzverif/selftest -harness "$1" -out /verif/work/selftest_$1.json >/dev/null 2>&1 || { echo "selftest $1: engine failed"; fail=1; return; }
+run() { # name expected-sat-labels(regex or NONE) [extra engine args]
+  /verif/bin/gosmt -pkg ./zzverif/selftest -harness "$1" -out /verif/work/selftest_$1.json ${@:3} >/dev/null 2>&1 || { echo "selftest $1: engine failed"; fail=1; return; }
   python3 - "$1" "$2" <<'PY'
 import json,sys,re
 name,exp=sys.argv[1],sys.argv[2]
@@ -31,4 +31,6 @@ run T9 NONE || fail=1
 run T10 NONE || fail=1
 run T11 NONE || fail=1
 run T12 limit || fail=1
+run T13 NONE -param model_recover=1 || fail=1
+run T14 "nil dereference" -param model_recover=1 || fail=1
 exit $fail
